@@ -101,7 +101,9 @@ def main():
                 if not anchor_files or (fn2file.get(str(u.get('function', '')).split('.')[-1], set()) & set(anchor_files))
                 or str(u.get('function', '')).split('.')[-1] not in fn2file]
         ctx.lost_tie = lost
-        if (lost or ctx.hints) and os.environ.get('VERIF_NO_ESCALATION') != '1' and args.tier == 'quick':
+        # the thorough exploration of C04, C11 and C12 takes about 20 minutes (exhaustive history / series spaces): too long for a check that is run
+        # on every change; they keep the quick sizes (the source hints still steer them)
+        if (lost or ctx.hints) and os.environ.get('VERIF_NO_ESCALATION') != '1' and args.tier == 'quick' and prop not in ('C04', 'C11', 'C12'):
             ctx.tier = 'thorough'
             ctx.escalated = True
             ctx.notes.append({'escalated': 'quick -> thorough exploration', 'because': {
